@@ -490,11 +490,11 @@ class PyReader:
                     and any(isinstance(s_, ast.Import) and any(a_.name == "operator" and a_.asname is None for a_ in s_.names) for s_ in self.module.body):
                 return ("operator", n.attr)
             base = self.ev(n.value, env, fns)
-            if n.attr in ("is_negative", "is_positive", "is_zero", "is_nonnegative", "is_nonpositive") and isinstance(base, (T, int)):
+            if n.attr in ("is_negative", "is_positive", "is_zero", "is_nonnegative", "is_nonpositive", "is_nonzero") and isinstance(base, (T, int)):
                 val = base if isinstance(base, int) else (base.val if base.op == "num" else (-base.args[0].val if base.op == "neg" and base.args[0].op == "num" else None))
                 if val is None:
                     return None  # SymPy: undetermined sign of a generic symbol
-                return {"is_negative": val < 0, "is_positive": val > 0, "is_zero": val == 0, "is_nonnegative": val >= 0, "is_nonpositive": val <= 0}[n.attr]
+                return {"is_negative": val < 0, "is_positive": val > 0, "is_zero": val == 0, "is_nonnegative": val >= 0, "is_nonpositive": val <= 0, "is_nonzero": val != 0}[n.attr]
             if isinstance(base, VVal):
                 if n.attr in ("components", "_components"):
                     return base.components  # the property hands out the vector's own list (aliasing is part of the behaviour)
